@@ -232,8 +232,30 @@ def expand_item(repo, relfile, selector, body, tmpl_name, tmpl_line, opts):
             out.has_spec = True
             out.spec_text = text
             add(fp.body_open, fp.body_open, "\n" + text + "\n", origin_nl, None)
+        elif d == "start":
+            if fp is None:
+                raise LostAnchor("%s: start on non-fn" % selector)
+            add(fp.body_open + 1, fp.body_open + 1, "\n" + text + "\n", origin_nl, None)
         elif d in ("before", "after"):
-            pos = _anchor(src, m, fp, arg, d, selector)
+            pos = None
+            errs = []
+            for ai, (akind, aval) in enumerate(arg):
+                try:
+                    if akind == "text":
+                        pos = _anchor(src, m, fp, aval, d, selector)
+                    elif akind == "stmt":
+                        pos = _stmt_anchor(src, m, fp, aval, d, selector, "")
+                    else:
+                        pos = _end_anchor(src, m, fp)
+                except LostAnchor as e:
+                    errs.append(str(e))
+                    continue
+                if ai > 0:
+                    out.rules.append(("T7o", "%s:%d" % (relfile, line_of(src, pos)),
+                                      "primary anchor lost; alternative #%d (%s %s) used" % (ai + 1, akind, aval)))
+                break
+            if pos is None:
+                raise LostAnchor("; ".join(errs))
             add(pos, pos, ("\n" if d == "after" else "") + text + "\n", origin_nl if d == "after" else origin, None)
         elif d == "loop":
             n, hdr = arg
@@ -307,6 +329,49 @@ def _anchor(src, m, fp, text, mode, selector):
     return rs.statement_end(m, first, b1)
 
 
+def top_statements(m, fp):
+    """[(start, end)] of the top-level statements of a fn body (masked text)."""
+    b0, b1 = fp.body_open + 1, fp.body_close
+    out = []
+    k = b0
+    while True:
+        while k < b1 and m[k].isspace():
+            k += 1
+        if k >= b1:
+            break
+        e = rs.statement_end(m, k, b1)
+        out.append((k, e))
+        k = e
+    return out
+
+
+def _stmt_anchor(src, m, fp, fallback, mode, selector, atext):
+    k, n = fallback
+    st = top_statements(m, fp)
+    if len(st) != n or k < 1 or k > n:
+        raise LostAnchor("%s: anchor `%s` lost and the body has %d top-level statements (expected %d)" %
+                         (selector, atext, len(st), n))
+    s0, e0 = st[k - 1]
+    if mode == "after":
+        return e0
+    ls = src.rfind("\n", 0, s0) + 1
+    return ls if src[ls:s0].strip() == "" else s0
+
+
+def _end_anchor(src, m, fp):
+    """Just before the tail expression if the body has one, else just before the closing brace."""
+    st = top_statements(m, fp)
+    if st:
+        s0, e0 = st[-1]
+        last = m[s0:e0].rstrip()
+        if not (last.endswith(";") or last.endswith("}")):
+            ls = src.rfind("\n", 0, s0) + 1
+            return ls if src[ls:s0].strip() == "" else s0
+    b1 = fp.body_close
+    ls = src.rfind("\n", 0, b1) + 1
+    return ls if src[ls:b1].strip() == "" else b1
+
+
 _dir = re.compile(r"^\s*//@\s*(\S+)\s*(.*)$")
 
 
@@ -360,10 +425,23 @@ def parse_template(path):
                         cur = (d2, None, [], i + 1)
                         body.append(cur)
                     elif d2 in ("before", "after"):
-                        t = re.match(r"`(.*)`\s*$", a2)
-                        if not t:
-                            raise LostAnchor("%s:%d: anchor text must be in backticks" % (path, i + 1))
-                        cur = (d2, t.group(1), [], i + 1)
+                        alts = []
+                        for part in re.split(r"\s+\|\s+", a2):
+                            part = part.strip()
+                            t = re.match(r"^`(.*)`$", part)
+                            t2 = re.match(r"^stmt\s+(\d+)/(\d+)$", part)
+                            if t:
+                                alts.append(("text", t.group(1)))
+                            elif t2:
+                                alts.append(("stmt", (int(t2.group(1)), int(t2.group(2)))))
+                            elif part == "end":
+                                alts.append(("end", None))
+                            else:
+                                raise LostAnchor("%s:%d: bad anchor `%s`" % (path, i + 1, part))
+                        cur = (d2, alts, [], i + 1)
+                        body.append(cur)
+                    elif d2 == "start":
+                        cur = (d2, None, [], i + 1)
                         body.append(cur)
                     elif d2 == "loop":
                         t = re.match(r"(\d+)\s*(?:`(.*)`)?\s*$", a2)
@@ -383,7 +461,7 @@ def parse_template(path):
                         closed = True
                         break
                     i += 1
-            if not closed and any(b[0] in ("spec", "before", "after", "loop") for b in body):
+            if not closed and any(b[0] in ("spec", "before", "after", "loop", "start") for b in body):
                 raise LostAnchor("%s:%d: item block with splices needs //@ end" % (path, start_line))
             nodes.append(("item", start_line, relfile, selector, body))
         else:
